@@ -15,6 +15,7 @@ import Drivers.Guards
 import Drivers.Metric
 import Drivers.Par
 import Drivers.Interp
+import Drivers.Gradation
 
 /-! `refdrv <driver> [args]` : dispatch to a line-protocol driver. One match arm per driver, on one line. -/
 
@@ -35,6 +36,7 @@ def main (args : List String) : IO UInt32 := do
   | "metric" :: rest => Drivers.Metric.run rest
   | "par" :: rest => Drivers.Par.run rest
   | "interp" :: rest => Drivers.Interp.run rest
+  | "gradation" :: rest => Drivers.Gradation.run rest
   | _ =>
     IO.eprintln s!"refdrv: unknown driver {args}"
     return 2
